@@ -309,21 +309,39 @@ theorem msg_roundtrip_exact (m : RQR) : m.roundTrip tagsOfFacts = m := by
   have h : tagsOfFacts = {} := by decide
   rw [h]; exact RQR.roundTrip_plain m
 
+/-- The obligation on the source (regenerated each run): in `HandleRemoteQueries`' receive
+    loop the test of `m.Error` is not dominated by the `break` on `m.EndOfResults` — the
+    follower (`ProcessRemoteQuery`) reports a failed query ON its final message. -/
+theorem error_read_before_end : Facts.codecErrorBeforeEnd = true := by decide
+
 /-- The message kind the leader infers from a decoded message is the kind the follower sent —
     for all messages, including unflat rows whose key has zero dims (`some []`), field lists
-    with zero fields, flat rows with no values. -/
+    with zero fields, flat rows with no values, and the final message that carries the
+    follower's error together with `EndOfResults` (kind `failed`: an error sent by the
+    follower is an error seen by the leader). -/
 theorem kind_preserved (s : Sent) (unflat : Bool)
     (hq : match s with | .unflatRow _ _ => unflat = true | .flatRow _ => unflat = false | _ => True) :
-    leaderKind s.first unflat (s.msg.roundTrip tagsOfFacts) = s.kind :=
-  leaderKind_roundTrip tagsOfFacts (by decide) (by decide) (by decide) (by decide) s unflat hq
+    leaderKind Facts.codecErrorBeforeEnd s.first unflat (s.msg.roundTrip tagsOfFacts) = s.kind := by
+  rw [error_read_before_end]
+  exact leaderKind_roundTrip tagsOfFacts (by decide) (by decide) (by decide) (by decide) (by decide) s unflat hq
 
-/-- Non-vacuity: with `omitempty` on `Key` (the seeded change) an unflat row whose key has
+/-- Non-vacuity: with `omitempty` on `Key` (seeded change C20-2) an unflat row whose key has
     zero dims arrives as "partition finished"; with the source's tags it arrives as a row. -/
 example :
-    leaderKind false true ((Sent.unflatRow [] (some [some [1, 2], none])).msg.roundTrip { key := { omitEmpty := true } })
+    leaderKind true false true ((Sent.unflatRow [] (some [some [1, 2], none])).msg.roundTrip { key := { omitEmpty := true } })
       = .partitionDone ∧
-    leaderKind false true ((Sent.unflatRow [] (some [some [1, 2], none])).msg.roundTrip tagsOfFacts) = .unflatRow ∧
-    leaderKind true false ((Sent.fieldList []).msg.roundTrip { fields := { omitEmpty := true } }) = .partitionDone := by
+    leaderKind true false true ((Sent.unflatRow [] (some [some [1, 2], none])).msg.roundTrip tagsOfFacts) = .unflatRow ∧
+    leaderKind true true false ((Sent.fieldList []).msg.roundTrip { fields := { omitEmpty := true } }) = .partitionDone := by
+  decide
+
+/-- Non-vacuity: when the loop leaves on `EndOfResults` before it reads `Error` (seeded change
+    C20-4) the follower's failure arrives as a normal end of results; in source order it
+    arrives as `failed`; an error in a message of its own is seen either way. -/
+example :
+    leaderKind false false true ((Sent.endOfResults none "deadline exceeded").msg.roundTrip tagsOfFacts) = .endOfResults ∧
+    leaderKind true false true ((Sent.endOfResults none "deadline exceeded").msg.roundTrip tagsOfFacts) = .failed ∧
+    (Sent.endOfResults none "deadline exceeded").kind = .failed ∧
+    leaderKind false false true { error := "boom" } = .failed := by
   decide
 
 /-- Known asymmetry, outside the property's observers: `Validate()` reads
